@@ -30,6 +30,9 @@ type RaftOpts struct {
 	// swarm parameters of this run
 	ElectPct, ClientTimeoutPct, FalseSuspectPct int
 	ElectPctOf                                  map[int]int // per server; overrides ElectPct
+	// SpecChannels: AServer's writes to appendEntriesCh are queued as the spec's Channel macro says (the deployment binds
+	// a Dummy there; what AppendEntries reads is TRUE either way), so that the spec variable can be rendered.
+	SpecChannels bool
 }
 
 // Raft is the raftkvs spec/Go pair under the scheduler: real generated archetypes, real
@@ -53,6 +56,9 @@ type Raft struct {
 	appendCh map[int]*queue
 	// Shadow of every server variable, maintained from committed write events: [server][var]
 	Shadow []map[string]tla.Value
+	// spec view of plog (PersistentLog macro applied to the committed writes) and of respCh (last committed write)
+	PlogSpec []tla.Value
+	LastResp tla.Value
 	// per-instance scheduling weight
 	Weight map[*sched.Instance]int
 	nodeOf map[*sched.Instance]int
@@ -352,6 +358,7 @@ func NewRaft(o RaftOpts, choose func(in *sched.Instance, id string, k uint) uint
 		}
 		r.Mgrs = append(r.Mgrs, mgrs)
 		r.Shadow = append(r.Shadow, shadow)
+		r.PlogSpec = append(r.PlogSpec, tla.MakeTuple())
 		r.becomeCh[s] = &queue{}
 		r.appendCh[s] = &queue{}
 		if n == 1 {
@@ -386,8 +393,18 @@ func NewRaft(o RaftOpts, choose func(in *sched.Instance, id string, k uint) uint
 			aeq, blq := r.appendCh[s], r.becomeCh[s]
 			switch k {
 			case 0: // AServer: appendEntriesCh is a Dummy, becomeLeaderCh an output channel
+				var aeRes distsys.ArchetypeResource = toMap(s, resources.NewDummy())
+				if o.SpecChannels {
+					aeRes = one(&fn{write: func(v tla.Value) error {
+						if closing() {
+							return errAbort
+						}
+						aeq.push(v)
+						return nil
+					}})
+				}
 				cfg = append(cfg,
-					distsys.EnsureArchetypeRefParam("appendEntriesCh", toMap(s, resources.NewDummy())),
+					distsys.EnsureArchetypeRefParam("appendEntriesCh", aeRes),
 					distsys.EnsureArchetypeRefParam("becomeLeaderCh", one(&fn{write: func(v tla.Value) error {
 						if closing() {
 							return errAbort
@@ -490,6 +507,19 @@ func NewRaft(o RaftOpts, choose func(in *sched.Instance, id string, k uint) uint
 				if _, tracked := r.Shadow[node-1][w.Name]; tracked && w.Prefix != "" && len(w.Indices) == 1 {
 					r.Shadow[node-1][w.Name] = w.Value
 				}
+				if w.Name == "plog" && w.Prefix != "" && len(w.Indices) == 1 {
+					val := w.Value.StripVClock()
+					cur := r.PlogSpec[node-1]
+					switch val.ApplyFunction(tla.MakeString("cmd")).AsString() {
+					case "log_concat":
+						cur = tla.ModuleOSymbol(cur, val.ApplyFunction(tla.MakeString("entries")))
+					case "log_pop":
+						cur = tla.ModuleSubSeq(cur, tla.MakeNumber(1), tla.ModuleMinusSymbol(tla.ModuleLen(cur), val.ApplyFunction(tla.MakeString("cnt"))))
+					}
+					r.PlogSpec[node-1] = cur
+				}
+			} else if ok && w.Name == "respCh" && w.Prefix != "" {
+				r.LastResp = w.Value.StripVClock()
 			}
 		}
 	}
